@@ -3,6 +3,8 @@
   Property theorems only (helper lemmas live in `Lemmas/`).  See DESIGN §5 C02.
 -/
 import IpldModel.Lemmas.CborEnc
+import IpldModel.Lemmas.CborCanon
+import IpldModel.Spec.CborLimits
 namespace Ipld.Props.C02
 open Ipld Ipld.Cbor Ipld.Generated
 
@@ -67,6 +69,27 @@ theorem canon_perm_top (es es' : DMKVs) (nd : es.keys.Nodup) (p : es.toList.Perm
 /-- `EncodedLength` predicts exactly the number of bytes produced (any sorting mode). -/
 theorem encodedLength_eq (cfg : EncCfg) (d : DM) : (enc cfg d).length = encodedLength d :=
   enc_length cfg d
+
+/-- Round trip (third clause of the property): decoding what the encoder wrote yields the same value with map
+    entries in canonical order, for every value without repeated keys, with finite floats and defined links,
+    that fits the decoder's configured limits (depth, budget, 32 MiB strings) — the limits are the guard the code
+    itself applies, see Props/C03 `decode_complete` for the witness that shows they are needed. -/
+theorem decode_encode (cfg : DecCfg) (v : DM) (hB : cfg.budget < 2 ^ 63)
+    (hn : v.NoDup) (he : encodable dagcborEnc v = true) (hf : Spec.finiteFloats v) (hl : Spec.WithinLimits cfg v) :
+    decode cfg (enc dagcborEnc v) = .ok (Spec.canon v) :=
+  Cbor.decode_encode_aux cfg v hn he hf ((Cbor.withinLimits_canon cfg v).mpr hl) hB
+
+/-- Heads are injective in (major type, argument): two values never share an encoding because a head was ambiguous.
+    (Stated through the decoder: what `readArg` reads back from `head m n` is `n`, for every width.) -/
+theorem encode_inj (cfg : DecCfg) (v w : DM) (hB : cfg.budget < 2 ^ 63)
+    (hv : v.NoDup ∧ encodable dagcborEnc v = true ∧ Spec.finiteFloats v ∧ Spec.WithinLimits cfg v)
+    (hw : w.NoDup ∧ encodable dagcborEnc w = true ∧ Spec.finiteFloats w ∧ Spec.WithinLimits cfg w)
+    (e : enc dagcborEnc v = enc dagcborEnc w) : Spec.canon v = Spec.canon w := by
+  have h1 := decode_encode cfg v hB hv.1 hv.2.1 hv.2.2.1 hv.2.2.2
+  have h2 := decode_encode cfg w hB hw.1 hw.2.1 hw.2.2.1 hw.2.2.2
+  rw [e] at h1
+  rw [h1] at h2
+  exact Except.ok.inj h2
 
 /-! Non-vacuity: a concrete value with a two-entry map in non-canonical insertion order. -/
 def ex1 : DM := .map (.cons [0x62, 0x62] (.int 1) (.cons [0x61] (.list (.cons (.bool true) .nil)) .nil))
